@@ -18,9 +18,9 @@ LEVEL = 'exploration'
 TECHNIQUE = ('complete enumeration of the finite configuration space (input type x output format x mode x style x '
              'condensed x identical/different) over fixed and Hypothesis-generated document sets, run through main() in-process')
 RULE = ("Configurations (enumerated completely): input type {json, json5, yaml, csv, xml, html, plist, pickle} x --format "
-        "{none + the same eight} x mode {full, -e, -d} x style {default, --color, --no-color, --html} x {-j, not} x "
-        "{different files, identical files}: 432 invocations per input type and document set. Document sets: 2 fixed per input type "
-        "(quick) / + 12 generated per input type (thorough; JSON-like documents, tables for CSV, element trees for "
+        "{none + the same eight} x mode {full, -e, -d} x style {default, --color, --no-color, --html, --html --color, --html --no-color} x {-j, not} x "
+        "{different files, identical files}: 648 invocations per input type and document set. Document sets: 3 fixed per input type "
+        "(quick; one of them with characters every format must escape, and non-string mapping keys for yaml/pickle) / + 12 generated per input type (thorough; JSON-like documents, tables for CSV, element trees for "
         "XML/HTML, null-free documents for plist, pickle.dumps of documents for pickle). Oracle: main() returns 0 or 1 "
         "and no exception escapes; failures are bucketed by (exception type, innermost graphtage frame). Non-trivial: "
         "input type != output format and the files differ. Every configuration of a document set is a distinct case.")
@@ -62,7 +62,7 @@ PREDICATES = {
 }
 FORMATS = [None] + INPUTS
 MODES = ['full', '-e', '-d']
-STYLES = [None, '--color', '--no-color', '--html']
+STYLES = [None, '--color', '--no-color', '--html', '--html --color', '--html --no-color']
 
 
 def EXHAUSTIVE(tier):
@@ -70,7 +70,7 @@ def EXHAUSTIVE(tier):
 
 
 def coverage_extra(tier):
-    return {'explanation': 'exhaustive over the 432 configurations per document set; the document sets themselves are sampled',
+    return {'explanation': 'exhaustive over the 648 configurations per document set; the document sets themselves are sampled',
             'configurations_per_document_set': len(FORMATS) * len(MODES) * len(STYLES) * 2 * 2}
 
 
@@ -90,10 +90,25 @@ P1 = {'name': 'x', 'list': [1, 2, {'a': 'q'}], 'flag': True, 'n': 1.5}
 P2 = {'name': 'y', 'list': [1, 3, {'a': 'b'}, []], 'flag': False, 'm': {}}
 T1 = [['a', 'b', 'c'], ['1', '2', '3']]
 T2 = [['a', 'b', 'd'], ['1', '5', '3'], ['x', 'y', 'z']]
+# documents with characters every output format has to escape, and (yaml/pickle only) non-string mapping keys
+E1 = {'note': 'say "hi" \\ back\nnext <b> & </b>', 'list': ['a&b', '<x>', "it's", '\t'], 'q"k': 1}
+E2 = {'note': 'say "ho" \\ back\nnext <i> & </i>', 'list': ['a&c', '<y>', "it's", ''], 'q"k': 2, 'new': '"'}
+# (mappings with non-string keys are written as {'__pairs__': [[key, value], ...]} so that cases stay JSON replay files)
+K1 = {'__pairs__': [[1, 'one'], [2.5, ['x', {'__pairs__': [[3, None]]}]], [True, 'yes'], ['name', {'__pairs__': [[7, 7]]}]]}
+K2 = {'__pairs__': [[1, 'uno'], [2.5, ['x', {'__pairs__': [[4, 'q']]}]], ['name', {'__pairs__': [[7, 8], [8, 9]]}], [9, []]]}
+PE1 = {'note': 'say "hi" & <b>\nnext', 'list': ['a&b', '<x>'], 'k': 1.5}
+PE2 = {'note': 'say "ho" & <i>\nnext', 'list': ['a&c', '<y>', 'z'], 'k': 2.5}
+XE1 = {'tag': 'r', 'attrib': {'a': 'x"y', 'b': "q'&<"}, 'text': 'a < b & c > d "e"', 'children': [
+    {'tag': 'c', 'attrib': {}, 'text': 'line1\nline2', 'children': []}]}
+XE2 = {'tag': 'r', 'attrib': {'a': 'x"z', 'c': '&amp;'}, 'text': 'a < b & c > f', 'children': [
+    {'tag': 'c', 'attrib': {'n': '1'}, 'text': 'line1\nline3', 'children': []}, {'tag': 'd', 'attrib': {}, 'text': None, 'children': []}]}
+TE1 = [['a"b', 'c,d', 'e\nf'], ['<x>', '&', "'"]]
+TE2 = [['a"c', 'c,d', 'e\ng'], ['<y>', '&', '']]
 FIXED = {
-    'json': [(J1, J2), (J3, J4)], 'json5': [(J1, J2), (J3, J4)], 'yaml': [(J1, J2), (J3, J4)], 'pickle': [(J1, J2), (J3, J4)],
-    'plist': [(P1, P2), ([1, 'a'], ['a', 1, 2.5])], 'csv': [(T1, T2), ([['x']], [['x', 'y'], []])],
-    'xml': [(X1, X2), (X3, X4)], 'html': [(X3, X4), (X1, X2)],
+    'json': [(J1, J2), (J3, J4), (E1, E2)], 'json5': [(J1, J2), (J3, J4), (E1, E2)],
+    'yaml': [(J1, J2), (K1, K2), (E1, E2)], 'pickle': [(J1, J2), (K1, K2), (E1, E2)],
+    'plist': [(P1, P2), ([1, 'a'], ['a', 1, 2.5]), (PE1, PE2)], 'csv': [(T1, T2), ([['x']], [['x', 'y'], []]), (TE1, TE2)],
+    'xml': [(X1, X2), (X3, X4), (XE1, XE2)], 'html': [(X3, X4), (X1, X2), (XE1, XE2)],
 }
 
 
@@ -105,9 +120,15 @@ def doc_strategy(inp):
         row = st.lists(st.sampled_from(gen.CELLS), min_size=0, max_size=3)
         T = st.lists(row, max_size=3)
         return st.tuples(T, T)
+    esc = st.sampled_from(['"', '\\', 'a\nb', '<&>', "'", 'x"y', '&amp;', '\t', 'é'])
     if inp == 'plist':
-        return gen.doc_pairs(8, 3, gen.plist_scalars)
-    return gen.doc_pairs(8, 3)
+        return gen.doc_pairs(8, 3, st.one_of(gen.plist_scalars, esc))
+    if inp in ('yaml', 'pickle'):
+        leaf = st.one_of(gen.scalars, esc)
+        kk = st.one_of(gen.keys, st.integers(0, 3), st.sampled_from([2.5, True]))
+        D = st.recursive(leaf, lambda ch: st.one_of(st.lists(ch, max_size=3), st.dictionaries(kk, ch, max_size=3)), max_leaves=8)
+        return st.tuples(D, D).map(lambda t: (encode_pairs(t[0]), encode_pairs(t[1])))
+    return gen.doc_pairs(8, 3, st.one_of(gen.scalars, esc))
 
 
 def all_configs():
@@ -139,7 +160,31 @@ def run_job(job, seed, sink):
             sink.fast({'input': inp, 'a': a, 'b': b, 'format': fmt, 'mode': mode, 'style': style, 'j': j, 'identical': ident})
 
 
+def decode_pairs(doc):
+    if isinstance(doc, dict):
+        if set(doc) == {'__pairs__'}:
+            out = {}
+            for k, v in doc['__pairs__']:
+                out[k] = decode_pairs(v)
+            return out
+        return {k: decode_pairs(v) for k, v in doc.items()}
+    if isinstance(doc, list):
+        return [decode_pairs(x) for x in doc]
+    return doc
+
+
+def encode_pairs(doc):
+    if isinstance(doc, dict):
+        if all(isinstance(k, str) for k in doc):
+            return {k: encode_pairs(v) for k, v in doc.items()}
+        return {'__pairs__': [[k, encode_pairs(v)] for k, v in doc.items()]}
+    if isinstance(doc, list):
+        return [encode_pairs(x) for x in doc]
+    return doc
+
+
 def serialise(inp, doc):
+    doc = decode_pairs(doc)
     if inp in ('json', 'json5'):
         return json.dumps(doc)
     if inp == 'yaml':
@@ -192,7 +237,7 @@ def check(case):
     if case.get('mode', 'full') != 'full':
         args.append(case['mode'])
     if case.get('style'):
-        args.append(case['style'])
+        args += case['style'].split()
     if case.get('j'):
         args.append('-j')
     try:
